@@ -11,6 +11,7 @@ import Ctrmml.Proofs.CodecBreak
 import Ctrmml.Proofs.CodecTrack
 import Ctrmml.Proofs.CodecCall
 import Ctrmml.Proofs.SongFragment
+import Ctrmml.Proofs.SongOptC01
 namespace Ctrmml.C02
 open Ctrmml Ctrmml.Mds Ctrmml.Seq Tables
 
@@ -444,8 +445,8 @@ example : (convertTrack 0 0 (flatL exTrackA ++ [⟨mds_SEGNO, 0⟩] ++ flatL exT
 /-! ## Whole songs of the fragment (third layer)
 
 `SongTop.PlainSong` = the fragment: track ids ascending, no explicit `END` event, every event of
-every track in `WFold.SimpleEv` (no pitch envelope on; notes — in drum mode: routine numbers —
-inside the MDSDRV range) with the front end's
+every track in `WFold.SimpleEv` (notes — in drum mode: routine numbers — inside the MDSDRV range;
+until round 5 also: no pitch envelope on) with the front end's
 timing (`SongSem.Timed`: 16-bit on/off times, only notes/ties have an on time, only notes/ties/rests
 an off time, a sounding note has at least one key-on tick) and loop counts 0..255, called tracks
 without loop point and without drum-mode switch (`SongTop.CalleeNoSeg`), drum-mode switches outside
@@ -467,7 +468,15 @@ the theorems cover (`Fragment.platEvB`: `CARRY`, or a one- / two-argument comman
 operand, `FLG` only with bit 7 set — i.e. `mode`, `lfo`, `lforate`, `fm3`, `write`, `pcmrate`,
 `pcmmode`, `carry`, and `cmd` with such an opcode) and the timeline reads it as what those events
 denote (`Fragment.platSpec`).  Macro tracks (`PAN_ENVELOPE` on) are inside: the `MTAB` operand is
-the macro index + 1 + number of subroutines, non-zero because it fits its byte (C09). -/
+the macro index + 1 + number of subroutines, non-zero because it fits its byte (C09).  Pitch
+envelopes (`PITCH_ENVELOPE` on, round 5) are inside: the writer pushes `PEG (i + 1)` with `i` the index
+`get_envelope` hands out, `i <` the size of `used_data_map` at that moment `≤` its final size
+(`SubMono`, third component: the map only grows through `hook` / `runWriter` / `get_subroutine` /
+`get_macro_track`) `< 32768` (the header of a chunk below 64 KiB holds two bytes per entry:
+`ChunkOK.nused`), so the 16-bit event argument is `i + 1 ≠ 0`, and the byte `convert_track` writes,
+`nSubs + nMacros + i + 1`, is not reduced (C09 `C09_index_fits_byte`), hence non-zero: the
+interpreter's `PEG` operand masks to 1 = what `Timeline.cmdOf` prescribes.  That the pitch envelope
+is defined (`pitch_map`) follows from `construct = .ok`. -/
 
 /-- **C02 for whole songs of the fragment.**  For every channel track in `Timeline.inDomain`
 whose expected tick string is defined: the track table of the assembled chunk lists the channel,
@@ -560,5 +569,254 @@ example : PlatformClean { platform := exPlatD } := by
   · split at h
     · simp only [Option.some.injEq] at h; subst h; intro ev hev; simp at hev; subst hev; unfold Plain; decide
     · cases h
+
+/-- pitch envelopes (round 5): `A M1 c [M2 d / M0 e]2 *100`, `*100 M1 f r` — switched on, to another
+envelope inside a loop in front of its break, off behind the break, on again in a subroutine -/
+def exPegRoot : List Event :=
+  [exCmd ev_PITCH_ENVELOPE 1, exNote 36 24 0, exCmd ev_LOOP_START 0, exCmd ev_PITCH_ENVELOPE 2, exNote 38 12 12,
+   exCmd ev_LOOP_BREAK 0, exCmd ev_PITCH_ENVELOPE 0, exNote 40 24 0, exCmd ev_LOOP_END 2, exCmd ev_JUMP 100]
+def exPegSong : Song :=
+  { tracks := [(0, exPegRoot), (100, [exCmd ev_PITCH_ENVELOPE 1, exNote 41 6 6, { type := ev_REST, param := 0, on := 0, off := 3 }])] }
+example : SongTop.PlainSong exPegSong := SongTop.plainSong_of_B (by decide)
+example : Timeline.inDomain exPegSong exPegRoot = true ∧ SongSplit.segCount exPegRoot ≤ 1 ∧ (0, exPegRoot) ∈ exPegSong.tracks := by decide
+example : SongTop.LoopDrumOK exPegRoot := SongTop.loopDrum_of_B (by decide)
+/-- the pitch-envelope commands of the expected tick string, in playing order: on, on (first pass), off (behind the break), on (second pass), on (subroutine) -/
+example : (Timeline.expected exPegSong [] exPegRoot).toOption.map
+    (·.filterMap fun t => match t with | .cmd op a => if op = mds_PEG then some a else none | _ => none) = some [1, 1, 0, 1, 1] := by
+  decide +kernel
+
+end Ctrmml.C02
+
+/-! ## Optimised songs (round 5): C01 composed with the whole-song theorem -/
+
+/-
+  C01 ∘ C02 — the bytes assembled from the OPTIMISED song play what the ORIGINAL song prescribes.
+
+  `C01_optimize_preserves` (Properties/C01): the optimiser preserves the observation `obs` of every
+  track.  `C02_song_roundtrip_partial` (Properties/C02): the chunk assembled from a song of the
+  fragment plays `Timeline.expected` of that song.  The link is `SongOpt.expected_congr`
+  (Proofs/SongOpt): `Timeline.expected` is a function of the observation — and of how the drum
+  routines named by notes resolve, which the observation of the channel track does not show.
+-/
+namespace Ctrmml.C02
+open Ctrmml Ctrmml.Mds Ctrmml.Seq Ctrmml.Expand Ctrmml.Opt Ctrmml.OptSteps Ctrmml.C01 Tables
+
+/-- **C02 after C01: the chunk assembled from the optimised song plays the timeline of the original
+song.**
+
+Hypotheses on the ORIGINAL song (those of `C01_optimize_preserves`): `hwf` well formed, `hsorted`
+ids ascending, `hids` ids below 32767, `hok` every track validates, `hr`/`hv` the optimiser
+(`Opt.optimize` with a validator `valid` that accepts only songs all of whose tracks validate,
+`hvalid`) returns `r` with `validated = true`, `hcnt` the subroutine ids stay within `int16_t`.
+
+Hypotheses on the OPTIMISED song `r.song` (those of `C02_song_roundtrip_partial`): `hpc`, `hp`
+(`r.song` is in the fragment `SongTop.PlainSong`), `hb` (the chunk `b` is assembled from `r.song`),
+`hlen`, `hR`, `hpa`; per channel track `id < 16` with event list `root` in the original and `root'`
+in the optimised song: `root'` in `Timeline.inDomain`, at most one loop point, `LoopDrumOK`.
+
+The extra hypothesis, per channel track: `SongOpt.DrumAlike song r.song pf (played items)` for the
+performance `items` of `root` in the original song — IF that performance contains a `DRUM_MODE`
+event, THEN for every `NOTE` entry of its played projection the routine its parameter names
+resolves alike in both songs (`SongOpt.routineOf`: the routine track expanded as a call from
+depth 1, its commands up to its first note, that note's number).  It is vacuous for a channel track
+whose performance never switches drum mode, and follows from `∀ p, routineOf r.song pf p =
+routineOf song pf p` (`SongOpt.drumAlike_of_all`).  It is needed because `obs` of the channel track
+says nothing about the routine tracks, and C01's preservation is about tracks expanded from an empty
+stack while a routine is expanded from depth 1 (one frame less).
+
+Conclusion: the tick string `t` that the ORIGINAL song prescribes for the channel
+(`Timeline.expected song pf root = .ok t`) is, up to `Timeline.maskTk`, what the sequence
+interpreter plays from the position the track table of `b` lists for the channel. -/
+theorem C02_optimised_song_roundtrip_partial (valid : Song → Bool) (hvalid : ∀ s, valid s = true → validAll s = true)
+    (song : Song) (minScore : Int) (fuel : Nat) (r : OptResult) (d : DataInfo) (vol : Option String)
+    (pf : Timeline.Platform) (b : MdsFile.Built)
+    -- C01: the original song and the optimiser run
+    (hwf : SongWF song) (hsorted : (song.tracks.map (·.1)).Pairwise (· < ·))
+    (hids : ∀ p ∈ song.tracks, p.1 < 32767)
+    (hok : ∀ id, song.track? id ≠ none → okTrack song id)
+    (hr : optimize valid minScore fuel song (initialSubId song) [] = .ok r) (hv : r.validated = true)
+    (hcnt : initialSubId song + (r.passes.length : Int) < 32768)
+    -- C02: the optimised song and its chunk
+    (hpc : PlatformClean d) (hp : SongTop.PlainSong r.song)
+    (hb : MdsFile.construct r.song d vol = .ok b) (hlen : b.seq.length < 65536) (hR : SongTop.RoutinesOK r.song b)
+    (hpa : SongTop.PlatAgree d.platform pf) :
+    ∀ id root root' t, (id, root) ∈ song.tracks → (id, root') ∈ r.song.tracks → id < 16 →
+      Timeline.inDomain r.song root' = true → SongSplit.segCount root' ≤ 1 → SongTop.LoopDrumOK root' →
+      (∀ items, perf song root = .ok items → SongOpt.DrumAlike song r.song pf (played items)) →
+      Timeline.expected song pf root = .ok t →
+      ∃ base ts start, tracksOf b.seq = some (base, ts) ∧ ts.lookup id = some start ∧
+        ∃ T, T.map Timeline.maskTk = t ∧
+          ∀ maxTicks, T.length ≤ maxTicks → ∃ n, ∀ fuel, fuel > n →
+            run b.seq base 1 maxTicks fuel { pc := start } = (T, .finished) := by
+  intro id root root' t hmem hmem' hid hdom hseg hloop hdr hexp
+  have hE := SongOpt.optimised_expected_eq valid hvalid song minScore fuel r pf hwf hsorted hids hok hr hv hcnt hp.ids
+    hmem hmem' hdr
+  exact C02_song_roundtrip_partial r.song d vol pf b hpc hp hb hlen hR hpa id root' t hmem' hid hdom hseg hloop
+    (by rw [hE]; exact hexp)
+
+/-! ### songs without drum mode: no extra hypothesis -/
+
+/-- no event of any track of the song is a drum-mode switch -/
+def NoDrumSong (song : Song) : Prop := ∀ p ∈ song.tracks, ∀ e ∈ p.2, e.type ≠ ev_DRUM_MODE
+
+theorem callK_noDrum {song : Song} (h : NoDrumSong song) : ∀ (k d id : Nat) (its : List Item),
+    callK song k d id = .ok its → ∀ i ∈ its, i.ev.type ≠ ev_DRUM_MODE ∧ i.src.type ≠ ev_DRUM_MODE
+  | 0, _, _, _, hx => by simp [callK] at hx
+  | k + 1, d, id, its, hx => by
+    simp only [callK] at hx
+    by_cases hf : d ≥ limit
+    · simp [hf] at hx
+    simp only [hf, if_false] at hx
+    cases htr : song.track? id with
+    | none => rw [htr] at hx; simp at hx
+    | some evs =>
+      rw [htr] at hx
+      have hmem : (id, evs) ∈ song.tracks := mem_of_lookup htr
+      exact SongSplit.noseg_L (fun e => e.type ≠ ev_DRUM_MODE) (by decide) _ _
+        (by rw [Tree.flatten_parse]; exact h _ hmem)
+        (fun e _ _ d' its' hc => callK_noDrum h k d' _ its' hc) _ _ _ hx
+
+/-- the performance of a track of a song without drum-mode switch has none in its played projection -/
+theorem played_noDrum {song : Song} (h : NoDrumSong song) {root : List Event} (hroot : ∀ e ∈ root, e.type ≠ ev_DRUM_MODE)
+    {items : List Item} (hp : perf song root = .ok items) : SongOpt.NoDrum (played items) := by
+  have hi : ∀ i ∈ items, i.ev.type ≠ ev_DRUM_MODE ∧ i.src.type ≠ ev_DRUM_MODE :=
+    SongSplit.noseg_L (fun e => e.type ≠ ev_DRUM_MODE) (by decide) _ _
+      (by rw [Tree.flatten_parse]; exact hroot)
+      (fun e _ _ d' its' hc => callK_noDrum h _ d' _ its' hc) _ _ _ hp
+  intro q hq
+  obtain ⟨i, him, hiq⟩ := List.mem_filterMap.1 hq
+  by_cases hb : SongOpt.Bracket i.ev
+  · rw [SongOpt.playedItem_bracket hb] at hiq
+    by_cases h0 : i.src.on + i.src.off = 0
+    · simp [h0] at hiq
+    · simp only [h0, if_false, Option.some.injEq] at hiq
+      rw [← hiq]; show ev_NOP ≠ ev_DRUM_MODE; decide
+  · rw [SongOpt.playedItem_other hb, Option.some.injEq] at hiq
+    rw [← hiq]; exact (hi i him).1
+
+/-- **C02 after C01 for songs that never switch drum mode** (`NoDrumSong song`: no `DRUM_MODE` event
+in any track of the ORIGINAL song): the hypotheses of `C01_optimize_preserves` on the original song
+and those of `C02_song_roundtrip_partial` on the optimised song, nothing else. -/
+theorem C02_optimised_song_roundtrip_nodrum_partial (valid : Song → Bool) (hvalid : ∀ s, valid s = true → validAll s = true)
+    (song : Song) (minScore : Int) (fuel : Nat) (r : OptResult) (d : DataInfo) (vol : Option String)
+    (pf : Timeline.Platform) (b : MdsFile.Built)
+    (hwf : SongWF song) (hsorted : (song.tracks.map (·.1)).Pairwise (· < ·))
+    (hids : ∀ p ∈ song.tracks, p.1 < 32767)
+    (hok : ∀ id, song.track? id ≠ none → okTrack song id)
+    (hr : optimize valid minScore fuel song (initialSubId song) [] = .ok r) (hv : r.validated = true)
+    (hcnt : initialSubId song + (r.passes.length : Int) < 32768)
+    (hnd : NoDrumSong song)
+    (hpc : PlatformClean d) (hp : SongTop.PlainSong r.song)
+    (hb : MdsFile.construct r.song d vol = .ok b) (hlen : b.seq.length < 65536) (hR : SongTop.RoutinesOK r.song b)
+    (hpa : SongTop.PlatAgree d.platform pf) :
+    ∀ id root root' t, (id, root) ∈ song.tracks → (id, root') ∈ r.song.tracks → id < 16 →
+      Timeline.inDomain r.song root' = true → SongSplit.segCount root' ≤ 1 → SongTop.LoopDrumOK root' →
+      Timeline.expected song pf root = .ok t →
+      ∃ base ts start, tracksOf b.seq = some (base, ts) ∧ ts.lookup id = some start ∧
+        ∃ T, T.map Timeline.maskTk = t ∧
+          ∀ maxTicks, T.length ≤ maxTicks → ∃ n, ∀ fuel, fuel > n →
+            run b.seq base 1 maxTicks fuel { pc := start } = (T, .finished) := by
+  intro id root root' t hmem hmem' hid hdom hseg hloop hexp
+  refine C02_optimised_song_roundtrip_partial valid hvalid song minScore fuel r d vol pf b hwf hsorted hids hok hr hv hcnt
+    hpc hp hb hlen hR hpa id root root' t hmem hmem' hid hdom hseg hloop ?_ hexp
+  intro items hperf hex
+  obtain ⟨q, hq, hq'⟩ := hex
+  exact absurd hq' (played_noDrum hnd (hnd _ hmem) hperf q hq)
+
+/-! non-vacuity of the song-side hypotheses: the original `c c c c L d` (four equal notes, the loop
+point, a note with a rest) and what the loop fold makes of it, `[c]4 L d`.  The original meets
+C01's hypotheses on the song (`SongWF`, ascending ids below 32767, every track validates,
+`NoDrumSong`); the folded song meets C02's (`PlainSong`, `inDomain`, one loop point, `LoopDrumOK`);
+the two have the same observation, and — the instance of `SongOpt.expected_congr` — the same
+expected tick string, 145 ticks with the loop mark (evaluated in the kernel).  The hypotheses
+that the optimiser returns this song (`hr`) and that `MdsFile.construct` assembles a chunk (`hb`)
+are not evaluated in the kernel (stack analysis / the mutually recursive writer do not unfold
+there); they are exercised by the correspondence runs of C01 and C02. -/
+namespace OptEx
+instance (l : List Event) : Decidable (Tree.NoEnd l) := by unfold Tree.NoEnd; infer_instance
+instance (l : List Event) : Decidable (BrkZero l) := by unfold BrkZero; infer_instance
+
+def oNote (p : Int) (on off : Nat) : Event := { type := ev_NOTE, param := p, on := on, off := off }
+def oRoot : List Event :=
+  [oNote 36 24 0, oNote 36 24 0, oNote 36 24 0, oNote 36 24 0, ⟨ev_SEGNO, 0, 0, 0⟩, oNote 38 12 12]
+def oRoot' : List Event := [lsEv, oNote 36 24 0, leEv 4, ⟨ev_SEGNO, 0, 0, 0⟩, oNote 38 12 12]
+def oSong : Song := { tracks := [(0, oRoot)] }
+def oSong' : Song := { tracks := [(0, oRoot')] }
+
+/-- C01's hypotheses on the original song -/
+example : SongWF oSong := by
+  refine ⟨by decide, ?_⟩
+  intro p hp
+  simp only [oSong, List.mem_singleton] at hp
+  subst hp
+  exact ⟨by decide, by decide, by decide⟩
+example : (oSong.tracks.map (·.1)).Pairwise (· < ·) ∧ (∀ p ∈ oSong.tracks, p.1 < 32767) := by decide
+example : ∀ id, oSong.track? id ≠ none → okTrack oSong id := by
+  intro id hid
+  have : id = 0 := by
+    by_cases h : id = 0
+    · exact h
+    · exfalso; apply hid
+      have hb : (id == 0) = false := by simp [h]
+      simp [Song.track?, oSong, List.lookup, hb]
+  subst this
+  exact ⟨_, oRoot.map item, rfl, by rfl⟩
+example : NoDrumSong oSong := by
+  intro p hp
+  simp only [oSong, List.mem_singleton] at hp
+  subst hp
+  decide
+/-- C02's hypotheses on the folded song -/
+example : SongTop.PlainSong oSong' := SongTop.plainSong_of_B (by decide)
+example : Timeline.inDomain oSong' oRoot' = true ∧ SongSplit.segCount oRoot' ≤ 1 ∧ (0, oRoot') ∈ oSong'.tracks ∧
+    (0, oRoot) ∈ oSong.tracks := by decide
+example : SongTop.LoopDrumOK oRoot' := SongTop.loopDrum_of_B (by decide)
+/-- what C01 concludes, and with it the hypotheses of `SongOpt.expected_congr` -/
+example : obsOf oSong' 0 = obsOf oSong 0 ∧ (obsOf oSong 0).isSome = true := by decide +kernel
+/-- the conclusion of `SongOpt.expected_congr` on this pair, by evaluation: `c c c c L d`, loop mark, `d` -/
+example : (Timeline.expected oSong' [] oRoot').toOption = (Timeline.expected oSong [] oRoot).toOption ∧
+    (Timeline.expected oSong [] oRoot).toOption.map (·.length) = some (4 * 24 + 24 + 1 + 24) := by decide +kernel
+/-- … and through the lemma -/
+example : Timeline.expected oSong' [] oRoot' = Timeline.expected oSong [] oRoot :=
+  SongOpt.expected_congr (items := oRoot.map item) (by rfl)
+    (items' := item lsEv :: (repeatItems 4 [item (oNote 36 24 0), item (leEv 4)] ++
+      [item ⟨ev_SEGNO, 0, 0, 0⟩, item (oNote 38 12 12)])) (by rfl) (by decide +kernel)
+    (fun h => absurd h (by decide +kernel))
+end OptEx
+
+end Ctrmml.C02
+
+/-! ### the executable transcription of the original-song hypotheses is sound -/
+namespace Ctrmml.C02
+open Ctrmml Ctrmml.Expand Ctrmml.Opt Ctrmml.OptSteps Ctrmml.C01 Ctrmml.Fragment Tables
+
+/-- `Fragment.optOriginalB` (what the judge evaluates on the original song of a `convo` case) implies
+the hypotheses of `C02_optimised_song_roundtrip_nodrum_partial` on the original song -/
+theorem optOriginal_of_B {song : Song} {passes : Nat} (h : optOriginalB song (initialSubId song) passes = true) :
+    SongWF song ∧ (song.tracks.map (·.1)).Pairwise (· < ·) ∧ (∀ p ∈ song.tracks, p.1 < 32767) ∧
+      (∀ id, song.track? id ≠ none → okTrack song id) ∧ initialSubId song + (passes : Int) < 32768 ∧ NoDrumSong song := by
+  unfold optOriginalB at h
+  simp only [Bool.and_eq_true, List.all_eq_true, decide_eq_true_eq, Bool.or_eq_true, bne_iff_ne, ne_eq, beq_iff_eq] at h
+  obtain ⟨⟨hs, ht⟩, hc⟩ := h
+  have hsorted := SongTop.sorted_of_B _ hs
+  have hnd : (song.tracks.map (·.1)).Nodup := hsorted.imp (fun h => Nat.ne_of_lt h)
+  refine ⟨⟨hnd, fun p hp => ?_⟩, hsorted, fun p hp => (ht p hp).1.1.1, fun id hid => ?_, hc, fun p hp e he => ?_⟩
+  · obtain ⟨⟨⟨_, hlen⟩, hev⟩, _⟩ := ht p hp
+    refine ⟨fun e he => (hev e he).1.1, fun e he te => ?_, hlen⟩
+    rcases (hev e he).1.2 with h1 | h1
+    · exact absurd te h1
+    · exact h1
+  · cases hl : song.track? id with
+    | none => exact absurd hl hid
+    | some t =>
+      have hmem : (id, t) ∈ song.tracks := mem_of_lookup hl
+      have hp := (ht (id, t) hmem).2
+      cases hperf : perf song t with
+      | error x => rw [show ((id, t) : Nat × List Event).2 = t from rfl, hperf] at hp; simp at hp
+      | ok items => exact ⟨t, items, hl, hperf⟩
+  · exact (((ht p hp).1.2) e he).2
+
+/-- the original song of the `OptEx` pair passes the executable test (one pass of the optimiser) -/
+example : optOriginalB OptEx.oSong (initialSubId OptEx.oSong) 1 = true := by decide +kernel
 
 end Ctrmml.C02
